@@ -98,6 +98,8 @@ def encode(c):
             t = C("LDrop", Z(op["k"]), B(op.get("how") == "poke"), B(st.get("eof", False)))
         elif k == "admin":
             t = C("LAdmin", S(op["cid"]))
+        elif k == "watchloss":
+            t = C("LWatchLoss", B(op.get("listfails", False)), B(st.get("closed", False)))
         elif k == "kaprobe":
             t = C("LKeepalive", Z(op.get("ka", 0)), Z(st.get("dlms", 0)))
         elif k == "extput":
